@@ -56,6 +56,31 @@ theorem lz_bitbuffer_never_overflows :
             (codeMax + maxOf LEN_EXTRA + codeMax + max (maxOf SMALL_DIST_EXTRA) (maxOf LARGE_DIST_EXTRA)) ≤ 64 ∧
     codeMax ≤ 15 ∧ G.idx DYN_CODE_SIZE_LIMITS 2 ≤ 7 := by decide +kernel
 
+/-- The token engines append to the 64 KiB LZ code buffer (`lz.codes`, indexed through `as u16`, so an
+    overflow wraps silently onto the first flag byte) and hand the block over as soon as
+    `code_position > LZ_CODE_BUF_SIZE - N`. With N and the number of code bytes written per recorded
+    literal / match REGENERATED from the source: between two such tests `compress_normal` records at
+    most one deferred literal and one match (plus at most one new flag byte: a flag byte serves 8
+    codes), `compress_fast` one literal or one match; from every position that passes the test, every
+    byte such a step writes lies inside the buffer — for every position, symbolically. -/
+theorem lz_code_buffer_never_overflows :
+    (∀ N ∈ LZ_TIGHT_SLACK_NORMAL.toList, ∀ pos : Int, 0 ≤ pos → pos ≤ Gen.Buffer.LZ_CODE_BUF_SIZE - N →
+        pos + (RECORD_LITERAL_CODES + RECORD_MATCH_CODES + 1) ≤ Gen.Buffer.LZ_CODE_BUF_SIZE) ∧
+    (∀ N ∈ LZ_TIGHT_SLACK_FAST.toList, ∀ pos : Int, 0 ≤ pos → pos ≤ Gen.Buffer.LZ_CODE_BUF_SIZE - N →
+        pos + (max RECORD_LITERAL_CODES RECORD_MATCH_CODES + 1) ≤ Gen.Buffer.LZ_CODE_BUF_SIZE) ∧
+    LZ_TIGHT_SLACK_NORMAL.size ≥ 1 ∧ LZ_TIGHT_SLACK_FAST.size ≥ 2 := by
+  have h1 : LZ_TIGHT_SLACK_NORMAL.toList.all (fun N => decide (RECORD_LITERAL_CODES + RECORD_MATCH_CODES + 1 ≤ N)) = true := by
+    decide +kernel
+  have h2 : LZ_TIGHT_SLACK_FAST.toList.all (fun N => decide (max RECORD_LITERAL_CODES RECORD_MATCH_CODES + 1 ≤ N)) = true := by
+    decide +kernel
+  refine ⟨fun N hN pos _ hp => ?_, fun N hN pos _ hp => ?_, by decide +kernel, by decide +kernel⟩
+  · have := List.all_eq_true.mp h1 N hN
+    simp only [decide_eq_true_eq] at this
+    omega
+  · have := List.all_eq_true.mp h2 N hN
+    simp only [decide_eq_true_eq] at this
+    omega
+
 /-- The three token engines keep hot registers (`src_pos`, `lookahead_size`, `lookahead_pos`, and in
     `compress_normal` the deferred lazy match `saved_lit / saved_match_dist / saved_match_len`) in
     locals. PROGRAM-TEXT fact regenerated from the source: at EVERY exit of every engine — the
